@@ -26,7 +26,7 @@ ROWS = [r for r in est.ROWS if r != "mtm_adapt"]
 def grid_case(draw):
     row = draw(st.sampled_from(ROWS))
     cplx = draw(st.booleans())
-    x = draw(gen.signal(16, 64, "complex" if cplx else "real", kinds=KINDS, noise_levels=(0.1, 1.0)))
+    x = draw(gen.signal(n=draw(gen.lengths(16, 64)), dtype="complex" if cplx else "real", kinds=KINDS, noise_levels=(0.1, 1.0)))
     x = est.sanitize(row, x)
     N = x["n"]
     p = draw(est.params(row, N, cplx))
